@@ -108,6 +108,33 @@ def reject_cases(draw, tier):
     return {'formula': f, 'vars': vs, 'trace': tr, 'what': what, 'path': path, 'other': other}
 
 
+@st.composite
+def timestamp_cases(draw, tier):
+    """The main cases with time stamps other than 0, 1, 2, ... on the updates (repeated stamps, one stamp for all, irregular
+    floats, epoch seconds, a negative start): the values of a pastified monitor do not depend on them either."""
+    c = draw(main_cases(tier))
+    n = len(next(iter(c['trace'].values())))
+    kind = draw(st.sampled_from(['repeated', 'repeated', 'constant', 'irregular', 'epoch', 'negative']))
+    if kind == 'repeated':
+        t, col = 0, []
+        for _ in range(n):
+            col.append(t)
+            t += draw(st.sampled_from([0, 0, 1, 1, 2]))
+    elif kind == 'constant':
+        col = [draw(st.sampled_from([0, 5, 2.5]))] * n
+    elif kind == 'irregular':
+        t, col = 0.0, []
+        for _ in range(n):
+            col.append(t)
+            t += draw(st.sampled_from([0.25, 1.0, 1.0, 1.5, 10.0]))
+    elif kind == 'epoch':
+        col = [1700000000 + i for i in range(n)]
+    else:
+        col = [-5 + i for i in range(n)]
+    c['time'], c['time_kind'] = col, kind
+    return c
+
+
 def horizon_features(f):
     """two siblings of different horizon, or a future operator nested in a future operator"""
     sib = False
@@ -161,7 +188,11 @@ def check_main(case):
     if times == 2:
         labels.append('pastify-twice')
         text = text + '   [pastify() called twice]'
-    o = run_dt_on(text.split('   [')[0], feed, w, pastify=times)
+    tcol = case.get('time')
+    if tcol is not None:
+        labels.append('time-stamps:' + case.get('time_kind', 'given'))
+        text = text + '   [time stamps of the updates: %s]' % (tcol,)
+    o = run_dt_on(text.split('   [')[0], feed, w, pastify=times, time=tcol)
     if o[0] != 'ok':
         return FAIL('exc:%s@%s' % (o[1], o[4]), 'spec: %s (horizon %d)\ntrace: %s\npastified monitor raised %s: %s at %s' % (
             text, h, w, o[1], o[3], o[4]), labels)
@@ -391,6 +422,7 @@ LANES = [
     Lane('giant', giant_cases_, check_giant, 60, 600, None),
     Lane('units', lambda tier: _units_cases(tier, False), check_units, 1500, 20000, std_candidates),
     Lane('units_pastonly', lambda tier: _units_cases(tier, True), check_units, 800, 10000, std_candidates),
+    Lane('timestamps', lambda tier: timestamp_cases(tier), check_main, 1500, 15000, std_candidates),
     Lane('main', lambda tier: main_cases(tier), check_main, 4000, 60000, std_candidates),
     Lane('warmup', lambda tier: past_over_future_cases(tier), check_finding, 1000, 15000, std_candidates),
     Lane('pastonly', strat_pastonly, check_pastonly, 1500, 20000, std_candidates),
